@@ -519,6 +519,21 @@ theorem ctor_args_not_aliased :
     ∀ p ∈ ctorArgAliases, (auditedCtorArgAliases.any fun e => e.1 == p.1 && e.2.1 == p.2) = true := by
   decide +kernel
 
+/-- Module-level constants that are ONE `torch.nn.Module` / tensor per process and are used by methods of Module
+classes (table `ctorGlobalDefaults`): anything registered from such a constant is shared by every instance in the
+process, and `load_state_dict` into one instance rewrites all of them (the defect class of seeded change C18-12).
+Audited entries `(class, global, why)`: -/
+def auditedGlobalDefaults : List (Nat × Nat × String) := [
+  (cid_GreaterThan, aid_softplus, "torch.nn.Softplus(): the default `transform`; has no parameters, buffers or mutable state, stored as the plain attribute `_transform`, never registered"),
+  (cid_LessThan, aid_softplus, "the same"),
+  (cid_Positive, aid_softplus, "the same")]
+
+/-- **No persisted state lives in a process-global object**: every module-level Module / tensor constant that a
+method of a Module class uses is one of the audited state-less ones. -/
+theorem ctor_global_defaults_audited :
+    ∀ g ∈ ctorGlobalDefaults, (auditedGlobalDefaults.any fun e => e.1 == g.1 && e.2.1 == g.2.1) = true := by
+  decide +kernel
+
 /-- Attribute NAMES that some method assigns on ANOTHER object (`new_kernel.batch_shape = …`): every one audited. -/
 def auditedForeignWrites : List (Nat × String) := [
   (aid_STAR, "setattr(mod, <name>, …): Module pyro sample loading / to_random_module on the (copied) sub-module; priors.utils re-tying base_dist"),
